@@ -102,7 +102,7 @@ def known_findings():
 
 
 def write_replay(pid, m):
-    d = os.path.join(HERE, "replays", pid)
+    d = os.path.join(os.environ.get("VMC_REPLAY_DIR") or os.path.join(HERE, "replays"), pid)
     os.makedirs(d, exist_ok=True)
     body = {"property": pid, "clause": m["clause"], "case": m["case"], "detail": m["detail"]}
     h = hashlib.md5(json.dumps(body, sort_keys=True).encode()).hexdigest()[:12]
@@ -175,7 +175,7 @@ def write_evidence(pid, mod, tier, seed, R, wall, nviol, known_seen, nunits, nwo
         "wall_s": round(wall, 2),
         "violations": int(nviol),
     }
-    d = os.path.join(HERE, "evidence")
+    d = os.environ.get("VMC_EVIDENCE_DIR") or os.path.join(HERE, "evidence")
     os.makedirs(d, exist_ok=True)
     tmp = os.path.join(d, pid + ".json.tmp")
     with open(tmp, "w") as f:
